@@ -1,7 +1,6 @@
 (* Crdt/AnonCodeProofs.v — the pieces of anonymize.rs behind the renaming (C31): the actor map is order
    preserving (big-endian ranks: Crdt/AnonBe64.v); the structural substitution keeps UTF-8 lengths, and is
-   injective / class preserving exactly when no control character is sent to the rank of DEL (refuted in
-   general); content strings keep their UTF-8 lengths but not always the whitespace classes of shape.rs. *)
+   injective and class preserving (since the repair of the DEL rank, bd9e88bf3); content strings keep their UTF-8 lengths but not always the whitespace classes of shape.rs. *)
 From AM Require Import Base.Prelude Base.Order Crdt.Types Crdt.Interp Crdt.Doc Crdt.Local Crdt.Anon Crdt.AnonProofs Crdt.AnonBe64.
 From Coq Require Import Sorting.Sorted.
 Local Open Scope N_scope.
@@ -106,11 +105,10 @@ Proof.
   splitifs; cbn [alpha_size decode]; splitifs; repeat split; lia.
 Qed.
 
-(* structural_character_from_rank: the character of the rank — except that for an original below U+0020
-   the rank itself is returned, so rank 0x20 (DEL) becomes U+0020 *)
+(* structural_character_from_rank: the character of the rank in the original's alphabet *)
 Lemma struct_from_rank_spec c r : valid_char c ->
   let '(al, _, _) := struct_rank c in
-  r < alpha_size al -> struct_from_rank c r = if c <? 32 then r else decode al r.
+  r < alpha_size al -> struct_from_rank c r = decode al r.
 Proof.
   intros [V1 V2]. unfold struct_rank, struct_from_rank, u8w, cp_width.
   splitifs; cbn [alpha_size decode]; intros Hr; splitifs; lia.
@@ -134,20 +132,23 @@ Proof.
   intros H H'. destruct al, al'; cbn [alpha_size decode] in *; splitifs; intros Heq; (split; [reflexivity|lia]) || (exfalso; lia).
 Qed.
 
-(* UTF-8 lengths (hence widths in every encoding) are kept by every table *)
-Theorem struct_replace_u8w p c : tables_ok p -> valid_char c -> u8w (struct_replace p c) = u8w c.
+(* the substitution is "decode the permuted rank" *)
+Lemma struct_replace_decode p c : tables_ok p -> valid_char c ->
+  let '(al, r, _) := struct_rank c in struct_replace p c = decode al (p al r).
 Proof.
   intros Hok V. unfold struct_replace.
   pose proof (struct_rank_spec c V) as S. pose proof (fun r => struct_from_rank_spec c r V) as F.
   destruct (struct_rank c) as [[al r] sz]. destruct S as (-> & Hr & Hd).
-  rewrite F by (apply Hok, Hr). rewrite <- Hd at 2. rewrite (decode_u8w al r Hr).
-  destruct (c <? 32) eqn:E.
-  - (* a control character: the result is the rank itself, at most 32 *)
-    assert (al = AsciiControl).
-    { destruct al; cbn [decode alpha_size] in *; try reflexivity; exfalso; revert Hd; splitifs; lia. }
-    subst al. pose proof (Hok AsciiControl r Hr) as B. cbn [alpha_size] in B.
-    unfold u8w, cp_width. splitifs; lia.
-  - apply decode_u8w, Hok, Hr.
+  apply F, Hok, Hr.
+Qed.
+
+(* UTF-8 lengths (hence widths in every encoding) are kept by every table *)
+Theorem struct_replace_u8w p c : tables_ok p -> valid_char c -> u8w (struct_replace p c) = u8w c.
+Proof.
+  intros Hok V. pose proof (struct_replace_decode p c Hok V) as D.
+  pose proof (struct_rank_spec c V) as S.
+  destruct (struct_rank c) as [[al r] sz]. destruct S as (-> & Hr & Hd).
+  rewrite D, <- Hd. rewrite !decode_u8w; [reflexivity|exact Hr|apply Hok, Hr].
 Qed.
 
 Theorem struct_string_u8w p s : tables_ok p -> Forall valid_char s -> map u8w (struct_string p s) = map u8w s.
@@ -156,36 +157,20 @@ Proof.
   cbn [map]. rewrite IH, struct_replace_u8w by assumption. reflexivity.
 Qed.
 
-(* with no control character sent to the rank of DEL the substitution is "decode the permuted rank" *)
-Lemma struct_replace_decode p c : tables_ok p -> no_del_rank p -> valid_char c ->
-  let '(al, r, _) := struct_rank c in struct_replace p c = decode al (p al r).
-Proof.
-  intros Hok Hnd V. unfold struct_replace.
-  pose proof (struct_rank_spec c V) as S. pose proof (fun r => struct_from_rank_spec c r V) as F.
-  destruct (struct_rank c) as [[al r] sz]. destruct S as (-> & Hr & Hd).
-  rewrite F by (apply Hok, Hr). destruct (c <? 32) eqn:E; [|reflexivity].
-  assert (al = AsciiControl /\ r = c).
-  { destruct al; cbn [decode alpha_size] in *; revert Hd; splitifs; intros Hd;
-      try (exfalso; lia); split; [reflexivity|lia]. }
-  destruct H as [-> ->]. pose proof (Hok AsciiControl c Hr) as B. cbn [alpha_size] in B.
-  assert (p AsciiControl c <> 32) by (apply Hnd; lia).
-  cbn [decode]. splitifs; lia.
-Qed.
-
-Theorem struct_replace_kclass p c : tables_ok p -> no_del_rank p -> valid_char c ->
+Theorem struct_replace_kclass p c : tables_ok p -> valid_char c ->
   kclass (struct_replace p c) = kclass c.
 Proof.
-  intros Hok Hnd V. pose proof (struct_replace_decode p c Hok Hnd V) as D.
+  intros Hok V. pose proof (struct_replace_decode p c Hok V) as D.
   pose proof (struct_rank_spec c V) as S.
   destruct (struct_rank c) as [[al r] sz]. destruct S as (-> & Hr & Hd).
   rewrite D, <- Hd. rewrite !decode_kclass; [reflexivity|exact Hr|apply Hok, Hr].
 Qed.
 
-Theorem struct_replace_inj p c1 c2 : tables_ok p -> tables_inj p -> no_del_rank p ->
+Theorem struct_replace_inj p c1 c2 : tables_ok p -> tables_inj p ->
   valid_char c1 -> valid_char c2 -> struct_replace p c1 = struct_replace p c2 -> c1 = c2.
 Proof.
-  intros Hok Hinj Hnd V1 V2.
-  pose proof (struct_replace_decode p c1 Hok Hnd V1) as D1. pose proof (struct_replace_decode p c2 Hok Hnd V2) as D2.
+  intros Hok Hinj V1 V2.
+  pose proof (struct_replace_decode p c1 Hok V1) as D1. pose proof (struct_replace_decode p c2 Hok V2) as D2.
   pose proof (struct_rank_spec c1 V1) as S1. pose proof (struct_rank_spec c2 V2) as S2.
   destruct (struct_rank c1) as [[al1 r1] sz1]. destruct (struct_rank c2) as [[al2 r2] sz2].
   destruct S1 as (-> & Hr1 & Hd1). destruct S2 as (-> & Hr2 & Hd2).
@@ -193,17 +178,16 @@ Proof.
   destruct E as [-> E]. apply Hinj in E; [|assumption|assumption]. subst. congruence.
 Qed.
 
-Theorem struct_string_inj p s1 : tables_ok p -> tables_inj p -> no_del_rank p ->
+Theorem struct_string_inj p s1 : tables_ok p -> tables_inj p ->
   forall s2, Forall valid_char s1 -> Forall valid_char s2 -> struct_string p s1 = struct_string p s2 -> s1 = s2.
 Proof.
-  intros Hok Hinj Hnd. unfold struct_string.
+  intros Hok Hinj. unfold struct_string.
   induction s1 as [|c t IH]; intros [|d u] F1 F2 E; cbn [map] in E; try discriminate E; [reflexivity|].
   inversion F1; inversion F2; subst. injection E as E1 E2.
   f_equal; [eapply struct_replace_inj; eauto|apply IH; assumption].
 Qed.
 
-(* ---- and in general it is NOT: the derangements "add k modulo the alphabet size" send TAB (rank 9 of the
-   control alphabet) to rank 32 = DEL, which comes out as U+0020, the image of '~' *)
+(* derangements "add k modulo the alphabet size" (witness tables for the content-class refutation) *)
 Definition shift_tables : tables := fun al r =>
   match al with
   | AsciiControl => (r + 23) mod 33
@@ -222,14 +206,6 @@ Proof.
 Qed.
 
 Ltac Zify.zify_post_hook ::= idtac.
-
-Theorem struct_replace_refuted :
-  exists p, tables_ok p /\ tables_inj p /\ tables_derange p /\
-    struct_replace p 9 = struct_replace p 126 /\ kclass (struct_replace p 9) <> kclass 9.
-Proof.
-  exists shift_tables. destruct shift_tables_good as (A & B & C). repeat split; try assumption.
-  vm_compute. discriminate.
-Qed.
 
 (* content strings: widths are kept ... *)
 Theorem content_char_u8w p syn c : tables_ok p -> valid_char c -> syn < 128 ->
@@ -276,16 +252,16 @@ Qed.
 Theorem code_renaming_good prefix p vals incs fh appl hs :
   wf_ids (all_ops appl) ->
   N.of_nat (length (actor_set (hist_actors appl))) <= 18446744073709551616 ->
-  tables_ok p -> tables_inj p -> no_del_rank p ->
+  tables_ok p -> tables_inj p ->
   (forall k, In k (map_keys (all_ops appl)) -> Forall valid_char k) ->
   (forall o v, In o (all_ops appl) -> op_action o = APut v -> sshape (vals (op_id o) v) = sshape v) ->
   (forall x y, In x (hist_hashes appl hs) -> In y (hist_hashes appl hs) -> fh x = fh y -> x = y) ->
   good_hist (code_renaming prefix (actor_set (hist_actors appl)) p vals incs fh) appl hs.
 Proof.
-  intros W Hlen Hok Hinj Hnd Hkeys Hvals Hh. split; cbn [code_renaming r_actor r_key r_val r_hash]; try assumption.
+  intros W Hlen Hok Hinj Hkeys Hvals Hh. split; cbn [code_renaming r_actor r_key r_val r_hash]; try assumption.
   - intros a b Ha Hb.
     destruct (anon_actor_mono prefix (hist_actors appl) a b Hlen Ha Hb) as (x & y & -> & -> & E). exact E.
-  - intros k1 k2 H1 H2. apply (struct_string_inj p k1 Hok Hinj Hnd k2); apply Hkeys; assumption.
+  - intros k1 k2 H1 H2. apply (struct_string_inj p k1 Hok Hinj k2); apply Hkeys; assumption.
   - intros k Hk. apply struct_string_u8w; [exact Hok|apply Hkeys, Hk].
 Qed.
 
@@ -319,9 +295,9 @@ Definition good_tables : tables := fun al r =>
   end.
 
 Ltac Zify.zify_post_hook ::= Z.div_mod_to_equations.
-Lemma good_tables_good : tables_ok good_tables /\ tables_inj good_tables /\ no_del_rank good_tables.
+Lemma good_tables_good : tables_ok good_tables /\ tables_inj good_tables.
 Proof.
-  unfold tables_ok, tables_inj, no_del_rank, good_tables.
+  unfold tables_ok, tables_inj, good_tables.
   repeat split; intros al; destruct al; cbn [alpha_size]; intros; splitifs; try lia.
   revert H1. splitifs; lia.
 Qed.
@@ -344,7 +320,7 @@ Definition ex_renaming : renaming :=
 
 Lemma ex_good : good_hist ex_renaming ex_hist [20; 30].
 Proof.
-  destruct good_tables_good as (A & B & C).
+  destruct good_tables_good as (A & B).
   apply code_renaming_good; try assumption.
   - apply wf_ids_b_sound. vm_compute. reflexivity.
   - vm_compute. discriminate.
